@@ -1,5 +1,7 @@
 import QcelVerif.Model.Schema
 import QcelVerif.Model.MolSchema
+import QcelVerif.Model.MolDict
+import QcelVerif.Model.Hash
 import QcelVerif.Gen.SchemaC09
 import QcelVerif.Lib.Proto
 /-!
@@ -12,6 +14,10 @@ Line-protocol driver for the C09 models.  One output line per input line.
   pat|<pattern>|<string>      -> `T` | `F`   (the pattern matcher)
   toschema|<v>|<dflt>|<fg>|<molrec fields…>      -> the schema dictionary
   fromschema|<name>|<version>|M/T|<moldict …>    -> the from_arrays arguments | `err <kind>`
+  construct|<name>|<version>|<dflt>|<fg>|<default masses>|<kwargs moldict (19)>|<molrec (20)>
+                              `Molecule(**kwargs)` with the record `from_schema` returned as the value of the
+                              `from_arrays` parameter -> `ok|<the 19 entries of mol.dict()>|<rebuild(dict m) = m>|<agreesB>|<singleOkB>|<hasType of molVal>|<emit of molVal>`
+                              | `err <kind>`
 
 Value / JSON syntax (prefix, every token ends with `;`):
   N;  T;  F;  I<int>;  R<p>/<q>;  S<hex code points joined by .>;  L<n>; v…   A<rank>; d…; <n>; v…
@@ -309,6 +315,37 @@ def fromSchemaOp (nm ver tag : String) (rest : List String) : String :=
     | none => "bad-op"
   | _, _, _ => "bad-op"
 
+/-! ### Molecule.__init__ / dict() around the schema functions (part c) -/
+
+open QcelVerif.MolDict in
+/-- one coordinate through `float_prep(·, 8)` as numpy evaluates it: `rint(fl(x * 1e8))`, zero band, and the
+correctly rounded quotient by `1e8` (the double that is stored) -/
+def prepCoord (x : Rat) : Rat :=
+  QcelVerif.Hash.rndDouble
+    ((QcelVerif.Hash.prepArr QcelVerif.Hash.rndDouble QcelVerif.Hash.GEOMETRY_NOISE (.val x)).toDbl
+      QcelVerif.Hash.GEOMETRY_NOISE).toRat
+
+def constructOp (nm ver dflt fgv dms : String) (rest : List String) : String :=
+  match optOf strP nm, optOf parseInt? ver, parseRat? dflt, strP fgv, listP parseRat? dms,
+        parseMolDict (rest.take 19), parseMolrec (rest.drop 19) with
+  | some n, some v, some d, some fgs, some dm, some kw, some r =>
+    let tbl := r.elem.zip dm
+    let P : QcelVerif.MolDict.Params Rat :=
+      { dflt := d, fg := fun _ => fgs, massOf := fun s => (assoc s tbl).getD 0, prep := prepCoord,
+        title := QcelVerif.MolDict.titleAscii }
+    if dm.length != r.elem.length then "bad-op" else
+    match QcelVerif.MolDict.construct P (fun _ => .ok r) n v kw with
+    | .error e => showErr e
+    | .ok m =>
+      let fixed := match QcelVerif.MolDict.rebuild P (fun _ => .ok r) n v (QcelVerif.MolDict.dictOf m) with
+        | .ok m' => decide (m' = m)
+        | .error _ => false
+      let sd := molDict d (fun _ => fgs) r
+      let mv := QcelVerif.MolDict.molVal (some (n.getD "qcschema_molecule")) (some (v.getD 2)) m []
+      let ht := hasType QcelVerif.Gen.SchemaC09.env fuelT mv (.model "Molecule")
+      s!"ok|{showMolDict m}|{tf fixed}|{tf (QcelVerif.MolDict.agreesB P.massOf kw sd)}|{tf (QcelVerif.MolDict.singleOkB sd)}|{tf ht}|{showJson (emit QcelVerif.Gen.SchemaC09.env mv)}"
+  | _, _, _, _, _, _, _ => "bad-op"
+
 def step (line : String) : String :=
   match splitOnChar line '|' with
   | ["tie"] => tie
@@ -318,6 +355,7 @@ def step (line : String) : String :=
   | ["pat", p, s] => (match strP p, strP s with | some p, some s => tf (matchPat p s) | _, _ => "bad-op")
   | "toschema" :: v :: d :: fgv :: rest => toSchemaOp v d fgv rest
   | "fromschema" :: nm :: ver :: tag :: rest => fromSchemaOp nm ver tag rest
+  | "construct" :: nm :: ver :: d :: fgv :: dms :: rest => constructOp nm ver d fgv dms rest
   | _ => "bad-op"
 
 end C09Drv
